@@ -55,6 +55,8 @@ pub struct Agg {
     pub steps: u64,
     pub inconclusive: u64,
     pub other_props: BTreeMap<String, u64>,
+    /// first detail seen per (other property, clause)
+    pub other_details: BTreeMap<String, String>,
     pub samples: BTreeMap<u64, Value>,
     /// (run index, violations of the property under check)
     pub failures: BTreeMap<u64, Vec<Violation>>,
@@ -93,6 +95,9 @@ impl Agg {
                 mine.push(v);
             } else {
                 *self.other_props.entry(v.prop.to_string()).or_default() += 1;
+                self.other_details
+                    .entry(format!("{} {}", v.prop, v.clause))
+                    .or_insert_with(|| format!("run {}: {}", index, v.detail.chars().take(400).collect::<String>()));
             }
         }
         if !mine.is_empty() {
@@ -120,6 +125,9 @@ impl Agg {
         }
         for (k, v) in o.other_props {
             *self.other_props.entry(k).or_default() += v;
+        }
+        for (k, v) in o.other_details {
+            self.other_details.entry(k).or_insert(v);
         }
         self.sim_ms += o.sim_ms;
         self.steps += o.steps;
